@@ -25,6 +25,7 @@ LEAF = [
     ("pfor", "varintPFOR.c", ["varintPFORCalculateMarker"]),
     ("adaptive", "varintAdaptive.c", ["varintAdaptiveMaxSize", "size_mul_overflow"]),
     ("float", "varintFloat.c", ["truncateMantissa", "expandMantissa"]),
+    ("bitmap", "varintBitmap.c", ["bitmapSet_", "bitmapClear_", "bitmapContains_"]),
 ]
 
 
